@@ -290,8 +290,11 @@ def c05_facets(run):
             H = list(ex1.ctx.hyps) + list(p1.pc) + list(p1.lazy) + [R2(c) for c in p2.pc] + [R2(c) for c in p2.lazy] + rel
             # set-up covariance
             kw1, kw2 = t1_.lsoda["kw"], t2_.lsoda["kw"]
-            run.exact(f"{t}/setup: rtol constant, same bands", FN, kw1.get("rtol") == kw2.get("rtol") == 1e-6 and kw1.get("lband") is kw2.get("lband") and set(kw1) == set(kw2) == {"atol", "rtol", "first_step", "lband", "uband"},
+            run.exact(f"{t}/setup: rtol constant, same bands", FN, kw1.get("rtol") == kw2.get("rtol") and not isinstance(kw1.get("rtol"), Sym) and kw1.get("lband") is kw2.get("lband") and set(kw1) == set(kw2),
                       f"LSODA keywords {sorted(kw1)}; rtol={kw1.get('rtol')}")
+            extra = set(kw1) - {"atol", "rtol", "first_step", "lband", "uband"}
+            if extra:
+                run.undecided(f"{t}/setup: additional solver keywords {sorted(extra)}", FN, "covariance of solver keywords beyond atol/rtol/first_step is not covered by a contract: bounded stand-in decides")
             _same_packed(run, f"{t}/setup: y_start independent of the rate", H, t1_.lsoda["y0"], t2_.lsoda["y0"], R2)
             _same_packed(run, f"{t}/setup: atol independent of the rate", H, kw1["atol"], kw2["atol"], R2)
             names = set()
@@ -474,15 +477,15 @@ def c09_glue(run):
         run.exact(f"{t}/apply_gbs is applied exactly once per solver step", FN_STEP, ok_n, f"{len(tr.gbs)} calls for {tr.steps} steps")
         for k, (args, res, passed) in enumerate(tr.gbs):
             o_in, f_in, chi, prev, ng = args
-            okp = prev is tr.snap0[0] and tr.snap0[0].writes == tr.snap0[2]
+            okp = isinstance(prev, LA.LArr) and _same_larr(prev, tr.snap0[0]) and tr.snap0[0].writes == tr.snap0[2]
             run.exact(f"{t}/step{k}/reference orientations are the snapshot at the start of the update", FN_STEP, okp, "orientations_prev is self.orientations[-1], unchanged during the update")
             okc = isinstance(chi, Sym) and z3.eq(chi.z, h.params["gbs_threshold"].z) and isinstance(ng, SymInt) and z3.eq(ng.z, h.n.z)
             run.exact(f"{t}/step{k}/threshold and grain count passed on unchanged", FN_STEP, okc, "params['gbs_threshold'], self.n_grains")
             yk = tr.y_after_steps[k] if k < len(tr.y_after_steps) else None
-            src = [e for e in tr.extract if e[2][1] is passed[0] and e[2][2] is passed[1]]
-            oks = len(src) == 1 and src[0][0] is yk
+            src = [e for e in tr.extract if e[0] is yk and isinstance(o_in, LA.LArr) and _same_larr(e[3][1], o_in) and _same_larr(e[3][2], f_in)]
+            oks = len(src) >= 1
             run.exact(f"{t}/step{k}/sliding acts on extract_vars(solver.y) of this step", FN_STEP, oks, "orientations, fractions come from the state the solver just produced")
-            okw = isinstance(yk, LA.YVec) and yk.O is res[0] and yk.f is res[1] and yk.writes == ["9:"]
+            okw = isinstance(yk, LA.YVec) and isinstance(yk.O, LA.LArr) and isinstance(yk.f, LA.LArr) and _same_larr(yk.O, res[0]) and _same_larr(yk.f, res[1]) and set(yk.writes) == {"9:"}
             run.exact(f"{t}/step{k}/result is written back into solver.y[9:]", FN_STEP, okw, "solver.y[9:] = hstack((orientations.flatten(), fractions))")
         # stored snapshot == last apply_gbs output (by the contracts of extract_vars and apply_gbs)
         m = tr.mineral
